@@ -143,6 +143,8 @@ VARIANTS["C09"] = [
 
 # ------------------------------------------------------------------------------------------------ C02
 VARIANTS["C02"] = [
+    V("chunkwise-read-wrong-stride-phase", "fire", SG, [('        darray = self._raw[nsel, :].astype(np.float32, copy=True)[..., csel]\n', '        if isinstance(self._raw, mtscomp.Reader) and isinstance(nsel, slice) and (nsel.step or 1) > 0:\n            start, stop, step = nsel.indices(self._raw.shape[0])\n            bounds = np.asarray(self._raw.chunk_bounds)\n            raw = np.empty((len(range(start, stop, step)), self._raw.shape[1]), dtype=np.float32)\n            n = 0\n            for c0, c1 in zip(bounds[:-1], bounds[1:]):\n                first = max(start, c0)\n                first += (first - start) % step\n                piece = self._raw[first:min(stop, c1):step, :]\n                raw[n:n + piece.shape[0], :] = piece\n                n += piece.shape[0]\n        else:\n            raw = self._raw[nsel, :].astype(np.float32, copy=True)\n        darray = raw[..., csel]\n')], ("D6",), "strided read of a compressed file assembled chunk by chunk with the stride re-aligned with the wrong sign"),
+    V("twin-chunkwise-read", "twin", SG, [('        darray = self._raw[nsel, :].astype(np.float32, copy=True)[..., csel]\n', '        if isinstance(self._raw, mtscomp.Reader) and isinstance(nsel, slice) and (nsel.step or 1) > 0:\n            start, stop, step = nsel.indices(self._raw.shape[0])\n            bounds = np.asarray(self._raw.chunk_bounds)\n            raw = np.empty((len(range(start, stop, step)), self._raw.shape[1]), dtype=np.float32)\n            n = 0\n            for c0, c1 in zip(bounds[:-1], bounds[1:]):\n                first = max(start, c0)\n                first += (start - first) % step\n                piece = self._raw[first:min(stop, c1):step, :]\n                raw[n:n + piece.shape[0], :] = piece\n                n += piece.shape[0]\n        else:\n            raw = self._raw[nsel, :].astype(np.float32, copy=True)\n        darray = raw[..., csel]\n')], (), "chunk-by-chunk strided read, stride aligned on the slice start"),
     V("out-is-final", "fire", SG, [(
         "        file_tmp = self.file_bin.with_suffix(\".cbin_tmp\")\n", "        file_tmp = self.file_bin.with_suffix(\".cbin\")\n")], ("D1",),
       "compression writes straight to the final name; only a failure mid-compression shows it"),
